@@ -45,6 +45,12 @@ fn main() {
             let thorough = args[3] == "thorough";
             let seed: u64 = args[4].parse().unwrap();
             let outdir = args[5].as_str();
+            if engine == "fence" {
+                // the fence workload lives in its own binary (its global allocator puts every allocation against a guard page)
+                let exe = std::env::current_exe().unwrap().with_file_name("rqfence");
+                let st = std::process::Command::new(exe).args([&args[3], &args[4], &args[5]]).status().expect("rqfence not built");
+                std::process::exit(st.code().unwrap_or(70));
+            }
             util::quiet_panics();
             let mut rec = Recorder::new(outdir);
             let mut rng = Rng::new(seed);
@@ -55,9 +61,9 @@ fn main() {
                 "slab" => e1::slab(&mut rec, &mut rng, thorough, outdir),
                 "cm" => e3::cm(&mut rec, &mut rng, thorough),
                 "enc" => e3::enc(&mut rec, &mut rng, thorough),
-                "repair" => { e3::repair(&mut rec, &mut rng, thorough); e3::repair_plan_history(&mut rec, &mut rng, thorough); }
+                "repair" => { e3::repair(&mut rec, &mut rng, thorough); e3::repair_plan_history(&mut rec, &mut rng, thorough); e3::repair_long_windows(&mut rec, &mut rng, thorough); }
                 "object" => { e3::object(&mut rec, &mut rng, thorough); e3::object_many_symbols(&mut rec, &mut rng, thorough); }
-                "decblk" => { e3::decblk(&mut rec, &mut rng, thorough); e3::decblk_directed(&mut rec, &mut rng, thorough); e3::decblk_malformed(&mut rec, &mut rng, thorough); }
+                "decblk" => { e3::decblk(&mut rec, &mut rng, thorough); e3::decblk_directed(&mut rec, &mut rng, thorough); e3::decblk_malformed(&mut rec, &mut rng, thorough); e3::decblk_flooded(&mut rec, &mut rng, thorough); }
                 "decobj" => e3::decobj(&mut rec, &mut rng, thorough),
                 "inter" => e3::inter(&mut rec, &mut rng, thorough),
                 "overhead" => e3::overhead(&mut rec, &mut rng, thorough),
